@@ -15,7 +15,7 @@ def run(chk):
     chk.assumptions = ['single-threaded histories (the property\'s quantifier); concurrent frees are C02', 'release configuration for the correspondence; release and MI_DEBUG=2 builds for the oracle']
     chk.extra['rule'] = ('obligations = theorems of Props/C01.lean; evaluations = micro-steps of real pages / the real segment replayed by the models + snapshot pages evaluated + API calls checked by the shadow oracle; '
                          'distinct = distinct oracle runs + correspondence lines')
-    chk.lean('MiVerif.Props.C01')
+    chk.lean('MiVerif.Props.C01', groups=['Loops'])
     okd, exe, log = V.build_driver()
     if not okd:
         chk.broken_tie('lean driver does not build', log[-1500:])
@@ -29,7 +29,7 @@ def run(chk):
             seeds = range(chk.seed, chk.seed + (8 if thorough else 3))
             jobs = []
             for sd in seeds:
-                jobs += [([h, 'page', str(sd), '6000'], None, 300), ([h, 'seg', str(sd), '3000'], None, 300), ([h, 'snap', str(sd), '12000'], None, 300)]
+                jobs += [([h, 'page', str(sd), '6000'], None, 120), ([h, 'seg', str(sd), '3000'], None, 120), ([h, 'snap', str(sd), '12000'], None, 120)]
             outs = V.pmap(jobs)
             texts = []
             for (cmd, _, _), (rc, out, err) in zip(jobs, outs):
@@ -51,7 +51,33 @@ def run(chk):
                 for l in [x for x in t.splitlines() if x.startswith('PG ')][5:8]:
                     chk.sample(l[:160])
             chk.log('correspondence: %d micro-steps, %d snapshot pages' % (steps, snaps))
-        # ---- oracle
+            # translator validation of the loop translation: the real mi_page_free_list_extend (area, capacity, block size, count, old
+            # list -> the chain it builds) against the regenerated function (Gen/Loops.lean), its stores interpreted by the definitions the
+            # theorems use (ExtendL.freeAfter / nextAfter)
+            ej = [([h, 'ext', str(sd), '4000'], None, 120) for sd in seeds]
+            ncase = 0
+            for (cmd, _, _), (rc, out, err) in zip(ej, V.pmap(ej)):
+                args = {'cmd': 'harness/c01 ' + ' '.join(cmd[1:]), 'how_to_run': 'harness/c01 %s | lean/.lake/build/bin/midriver c01ext' % ' '.join(cmd[1:])}
+                if rc != 0 or 'DONE' not in out:
+                    chk.violation('C01/free-list-extend-crash', 'mi_page_free_list_extend crashed when driven directly (%s): %s' % (' '.join(cmd[1:]), (err or out)[-300:].replace('\n', ' ')), args); continue
+                if not okd:
+                    continue
+                rc2, out2, err2 = V.run([exe, 'c01ext'], input=out, timeout=300)
+                summ = [l for l in out2.splitlines() if l.startswith('c01extval cases')]
+                dl = [l for l in out2.splitlines() if l.startswith('DIFF')]
+                if summ:
+                    ncase += int(summ[0].split()[2]); chk.count(int(summ[0].split()[2]))
+                if rc2 != 0 or dl or not summ:
+                    chk.broken_tie('translator validation: regenerated mi_page_free_list_extend and the real function disagree (%s)' % ' '.join(cmd[1:]), ((dl or [err2 or out2])[0])[:500] + ' | ' + args['how_to_run'])
+            chk.extra['free_list_extend_cases_compared'] = ncase
+            chk.log('free-list-extend translator validation: %d cases' % ncase)
+            if okd and ncase == 0 and not chk.broken and not chk.violations:
+                chk.broken_tie('free-list-extend translator validation', 'no case was compared')
+        # ---- oracle (the quick tier stops here when the direct drive already produced a concrete failing input: the verdict is settled and a
+        # corrupted allocator tends to hang the oracle until its time limit)
+        if chk.violations and not thorough:
+            chk.log('oracle skipped: the direct drive already found a failing input')
+            return
         hs = seqcommon.build(chk, d)
         hd = seqcommon.build(chk, d, flags=('-DMI_DEBUG=2',), tag='dbg')
         n = 10 if thorough else 3
